@@ -168,8 +168,20 @@ def run(tier, seed):
         n = tg.genesis
         for hgt in range(1, 10):
             cs = chaingen.impl_state_from(tg.nodes)
-            for c in mutators.mutants(tg, n, ck.rng, tags=('C02',)):
-                if not c['label'].startswith(('reward-', 'control-reward', 'control-plain')):
+            cases_ = mutators.mutants(tg, n, ck.rng, tags=('C02', 'C05'))
+            if hgt > 4:
+                # a block that reports a height of an EARLIER era (consistently: summary, reward data, evidence) and claims
+                # that era's subsidy
+                old_h = 1
+                cbx = chaingen.coinbase(old_h, env.subsidy(old_h), keys.pks[0], b'era')
+                try:
+                    blkx = chaingen.assemble(env, n, [cbx], n.view.time + 120, overrides={'height': old_h, 'evidence_height': old_h})
+                    cases_.append({'label': 'reward-of-earlier-era-with-that-eras-height', 'tag': 'C02', 'block': blkx,
+                                   'now': n.view.time + 120, 'expect': 'reject'})
+                except Exception:
+                    pass
+            for c in cases_:
+                if not c['label'].startswith(('reward-', 'control-reward', 'control-plain', 'control-empty', 'height-')):
                     continue
                 v, _ = consensus_check.impl_verdict(cs, c['block'], c['now'])
                 ck.case(('validator', hgt, c['label']), kind='validator/%s' % ('accept' if v == [1] else 'reject'))
@@ -181,6 +193,26 @@ def run(tier, seed):
                                   'prefix': [m.block.serialize().hex() for m in tg.nodes], 'block': c['block'].serialize().hex(),
                                   'now': c['now'], 'period': 50, 'span': env.span})
             n = tg.extend(n, txs=[], fees=0)
+    # the amount limit as transaction validation enforces it: a transaction whose only defect is an amount outside
+    # (0, maximum] is refused EVERY time it is presented
+    import gen
+    from skepticoin.datatypes import Output
+    for v in (0, DOC_MAX + 1, 2 ** 63, 2 ** 64 - 1):
+        t = gen.g_tx(ck.rng, nin=1, nout=1)
+        t.outputs = [Output(v, t.outputs[0].public_key)]
+        verdicts = []
+        for k in range(3):
+            try:
+                consensus.validate_non_coinbase_transaction_by_itself(t)
+                verdicts.append(True)
+            except consensus.ValidationError:
+                verdicts.append(False)
+            except Exception:
+                verdicts.append(False)
+        ck.case(('tx-range', v), kind='tx-range')
+        if any(verdicts):
+            ck.violation('range-limit', 'a transaction with an output of %d passes transaction validation on presentation #%d'
+                         % (v, verdicts.index(True) + 1), {'kind': 'range', 'value': v, 'presentations': verdicts})
     if tier == 'thorough':
         n = 31 * DOC_INTERVAL
         step = n // 64 + 1
